@@ -387,7 +387,7 @@ func errflowCore(P *Prog, fn *ssa.Function, def ssa.Instruction, startBlock *ssa
 						other = b.X
 					}
 					if other != nil {
-						if g := globalName(other); g != "" && cfg.swallowSentinels[g] {
+						if g := globalName(other); g != "" && (cfg.swallowSentinels[g] || cfg.swallowSentinels[stableName(topOf(st.b.Parent()))+" "+g]) {
 							// equal side: swallowed by reviewed exception; follow only the unequal side
 							eqIdx := 0
 							if (b.Op == token.NEQ) == pol {
@@ -547,6 +547,23 @@ func provablyNonNilErrRec(v ssa.Value, b *ssa.BasicBlock, seen map[ssa.Value]boo
 	if c, ok := v.(*ssa.Call); ok && nonNilErrCallees[calleeName(c)] {
 		return true
 	}
+	if c, ok := v.(*ssa.Call); ok {
+		// a module function all of whose returns box a concrete value (e.g. common.MarkRetriable: &retriable{err})
+		if f := c.Call.StaticCallee(); f != nil && inModule(f) && len(f.Blocks) > 0 && f.Signature.Results().Len() == 1 {
+			all, n := true, 0
+			for _, in := range instrs(f) {
+				if r, isR := in.(*ssa.Return); isR {
+					n++
+					if _, isMI := r.Results[0].(*ssa.MakeInterface); !isMI {
+						all = false
+					}
+				}
+			}
+			if all && n > 0 {
+				return true
+			}
+		}
+	}
 	if g := globalName(v); g != "" {
 		return true // package-level sentinel
 	}
@@ -641,4 +658,11 @@ func isNonNilConstErr(v ssa.Value) bool {
 		return true
 	}
 	return globalName(v) != ""
+}
+
+func topOf(f *ssa.Function) *ssa.Function {
+	for f.Parent() != nil {
+		f = f.Parent()
+	}
+	return f
 }
